@@ -24,6 +24,8 @@ ASSUMED = ['OperatorDict path of register(symbolic=True): do_codegen(f, symbolic
 
 def build(H, tier, seed):
     T.vc_tape_all(H)
+    from contracts import powers_c as PW
+    PW.vc_pow_generic(H)
     D.vc_getitem(H, 'Registry')
     D.vc_registry_call(H)
     # MultiVector side of the simulation; __rtruediv__ is left to C16: inside C11's grammar its left operand is a plain number,
